@@ -70,6 +70,7 @@ impl Cfg {
 }
 
 impl AnyStore {
+    pub fn kind_name(&self) -> &'static str { match self { AnyStore::P(_) => "periodic", AnyStore::A(_) => "adaptive", AnyStore::B(_) => "probabilistic" } }
     pub fn len(&self) -> usize {
         match self {
             AnyStore::P(s) => s.verif_len(),
